@@ -142,7 +142,12 @@ def shard(task):
     res = opt(make_score(cfg['score'], nc, cats), count=cfg['count'], prior_features=prior, n_parallel=cfg['n_parallel'], seed=jax.random.PRNGKey(cfg['seed']))
     return conv, res, prior_trials
 
+  import time
+  skipped = 0
   for cfg in task['configs']:
+    if task.get('deadline') and time.time() > task['deadline']:
+      skipped += 1          # wall-clock budget used up: reported, and the run is not called exhaustive
+      continue
     n += 1
     nc, cats = cfg['layout']
     try:
@@ -193,7 +198,7 @@ def shard(task):
       pass
     for clause, text in found:
       V(clause, cfg, text)
-  return {'n': n, 'nontrivial': nontriv, 'refused': refused, 'violations': list(vios.values())}
+  return {'n': n, 'nontrivial': nontriv, 'refused': refused, 'violations': list(vios.values()), 'skipped': skipped}
 
 
 def configs(quick, seed):
@@ -247,10 +252,13 @@ def run(ctx):
   extra = [dict(c, fori=False) for c in cfgs if c['strategy'] == 'random' and c['batch'] == 5 and c['count'] == 3][:12]
   allc = cfgs + extra
   chunks = [allc[i::48] for i in range(48)]
-  tot = nontriv = 0
+  tot = nontriv = skipped = 0
   refused = {}
-  for r in ctx.pmap('shard', [{'configs': ch, 'repeat_every': 3 if ctx.quick else 1} for ch in chunks if ch]):
+  import time
+  deadline = time.time() + max(60.0, ctx.budget_s - ctx.elapsed())
+  for r in ctx.pmap('shard', [{'configs': ch, 'repeat_every': 3 if ctx.quick else 1, 'deadline': deadline} for ch in chunks if ch]):
     tot += r['n']
+    skipped += r.get('skipped', 0)
     nontriv += r['nontrivial']
     for k, v in r['refused'].items():
       refused[k] = v if isinstance(v, str) else refused.get(k, 0) + v
@@ -258,7 +266,8 @@ def run(ctx):
   return {'evaluations': tot, 'distinct_nontrivial': nontriv,
           'rule': 'one evaluation = one optimiser configuration (layout, padding, strategy, count, batch, budget, priors, n_parallel, score function, seed) run twice with the same seed; distinct by construction; non-trivial = the optimiser returned a result (refusals are tallied)',
           'samples': [{k: (list(v) if isinstance(v, tuple) else v) for k, v in cfgs[0].items()}, {k: (list(v) if isinstance(v, tuple) else v) for k, v in cfgs[-1].items()}],
-          'refused': refused, 'untraced_crosschecks': len(extra), 'exhaustive': True}
+          'refused': refused, 'untraced_crosschecks': len(extra), 'configurations_skipped_for_budget': skipped,
+          'cap_hit': ('wall-clock budget: %d of %d configurations not run' % (skipped, skipped + tot)) if skipped else None, 'exhaustive': skipped == 0}
 
 
 def replay(case, ctx):
